@@ -28,8 +28,8 @@ type (
 		V constant.Value
 		T types.Type
 	}
-	aNil    struct{}             // nil pointer / interface / slice / map / func
-	aNonNil struct{ Tag string } // definitely non-nil, content unknown
+	aNil    struct{}              // nil pointer / interface / slice / map / func
+	aNonNil struct{ Tag string }  // definitely non-nil, content unknown
 	aSym    struct{ Path string } // opaque scalar read from symbolic memory; equal to itself only
 	aPtr    struct {
 		ID   int
